@@ -29,6 +29,7 @@ type zzExec struct {
 	// The monolith reads the required fields from the object (through field(), so failures propagate), a subgraph
 	// reads them from the representation it was sent; a missing one is recorded in missingRequired.
 	computed        map[string]zzComputed
+	argAware        map[string]bool // "Type.field": the value also shows the coerced arguments
 	subgraphSide    bool
 	missingRequired string
 
@@ -254,6 +255,11 @@ func (e *zzExec) field(f zzCollected, obj *zzO) string {
 				}
 			}
 		}
+	}
+	if e.argAware[obj.typ+"."+name] {
+		base, _ := val.(string)
+		b, _ := json.Marshal(base + e.coerceArgs(f.refs[0], fd))
+		val = string(b)
 	}
 	if len(name) >= 4 && name[:4] == "echo" {
 		b, _ := json.Marshal(e.coerceArgs(f.refs[0], fd))
